@@ -71,11 +71,8 @@ def specStep (c : Cfg) (scn : String) (cd : CallDef) (vars : Vars Char) : Outcom
 /-- variables of a step and the iterator positions after its preprocessor: `u` is the next user of the iterator the
 call draws from (if the call has a preprocessor), `A`/`I` what the shot's auth step returned, `G` the global constant -/
 def stepVars (c : Cfg) (cd : CallDef) (iters : List (String × Nat)) (sv : ShotVars) : Vars Char × List (String × Nat) :=
-  let owner := iterOwner c cd
-  let drawn := (assocGet iters owner).getD 0
-  let ui : Option String × List (String × Nat) :=
-    if cd.pre then (some (c.users.getD (drawn % c.users.length) ""), assocSet iters owner (drawn + 1)) else (none, iters)
-  (mkVars ui.1 (svFor cd sv) c.g, ui.2)
+  let ui := drawUser c cd iters
+  (mkVars ui.1 (svFor cd sv) c.g c.gn, ui.2)
 
 /-- the per-shot variables after a step: the step named `auth` (re)defines token and user id -/
 def svNext (cd : CallDef) (ret : Option (String × String)) (sv : ShotVars) : ShotVars :=
@@ -226,7 +223,7 @@ def allowedCalls (c : Cfg) : List String :=
         let us : List (Option String) := if cd.pre then c.users.map some else [none]
         let is := if (cd.md.map (·.2) ++ cd.payload.map (·.2.2)).any (fun t => usesVar t vA || usesVar t vI) then c.users else [""]
         us.flatMap fun u => is.flatMap fun i =>
-          let vars : Vars Char := mkVars u { a := some ("TOK" ++ i), i := some i } c.g
+          let vars : Vars Char := mkVars u { a := some ("TOK" ++ i), i := some i } c.g c.gn
           (specStep c s.name cd vars).1.calls
 
 /-- Engine runs: an instance first acquires an ammo and then waits for a schedule token (`instance.Run`), so with `n`
